@@ -8,6 +8,7 @@ mod minimise;
 mod oracle;
 mod scenarios;
 mod specgen;
+mod t_exit;
 mod t_stream;
 mod trials;
 
